@@ -4,10 +4,37 @@
 #include <csignal>
 #include <cstdio>
 #include <string>
+#include <sys/wait.h>
+#include <unistd.h>
 using namespace tbox::event;
 int main(int argc, char **argv) {
     std::string engine = argc > 1 ? argv[1] : "epoll";
     int bad = 0;
+    if (argc > 2 && std::string(argv[2]) == "ign") {
+        // the disposition before the first subscription is SIG_IGN (nohup, or the application ignored the signal): a delivery must reach the
+        // subscriber, must not "call" SIG_IGN, and the disposition must be SIG_IGN again afterwards.  Run in a child: a wrong chain call kills it.
+        pid_t pid = fork();
+        if (pid == 0) {
+            signal(SIGUSR1, SIG_IGN);
+            Loop *loop = Loop::New(engine.c_str());
+            SignalEvent *ev = loop->newSignalEvent();
+            int calls = 0;
+            ev->initialize(SIGUSR1, Event::Mode::kPersist);
+            ev->setCallback([&](int) { ++calls; });
+            ev->enable();
+            raise(SIGUSR1);
+            loop->exitLoop(std::chrono::milliseconds(100));
+            loop->runLoop();
+            delete ev; delete loop;
+            struct sigaction now; sigaction(SIGUSR1, nullptr, &now);
+            _exit((calls == 1 && now.sa_handler == SIG_IGN) ? 0 : 3);
+        }
+        int st = 0; waitpid(pid, &st, 0);
+        if (WIFSIGNALED(st)) { printf("VIOLATION: with SIG_IGN as the previous disposition the process-wide handler crashed the process (signal %d) on the first delivery\n", WTERMSIG(st)); return 1; }
+        if (WEXITSTATUS(st) != 0) { printf("VIOLATION: previous disposition SIG_IGN: callback count or restored disposition wrong\n"); return 1; }
+        printf("previous disposition SIG_IGN: delivered once, disposition restored\n");
+        return 0;
+    }
     const int bursts[] = {1, 2, 3, 5, 10, 11, 25};
     for (int n : bursts) {
         Loop *loop = Loop::New(engine.c_str());
